@@ -973,7 +973,7 @@ def _base(cls, n, idx, tag, nt=None, P=None, rlo=24.0, rhi=280.0, rs=None):
     if P is None:
         P = 3 + seed % 6
     if rs is None:
-        rs = n <= 6000
+        rs = n <= 3500
     return {"cls": cls, "fam": tag.split(":")[1], "n": int(n), "dt": dt, "seed": int(seed), "nt": int(nt),
             "flo": round(max(0.1, 4 * df), 5), "fhi": round(0.6 * 0.5 / dt, 4), "P": int(P), "rlo": float(rlo), "rhi": float(rhi),
             "rs": bool(rs and cls == "acc"), "steps": []}
@@ -1032,13 +1032,13 @@ def _len_cases(tier):
     hi = 300000 if quick else 2000000
     # the ladder covers [2000, 0.62 hi]; the upper end itself is always a size (a window that opens above ~0.6 hi is met there)
     sizes = sorted(set(gen.size_ladder(2000, int(0.62 * hi), 11 if quick else 24, "c04:len:" + tier, mined_limit=4 if quick else 12)) | {2000, hi})
-    every = 3 if quick else 1
     loop_max = 20000 if quick else 80000
     cases = []
     for i, n in enumerate(sizes):
         for cls in ("acc", "sig"):
             acc = cls == "acc"
             pool = (VAL_ACC + LOOP_ACC + SMOOTH_SAME + SMOOTH_LEN + PER_ATTR + PER_LEN) if acc else (VAL_SIG + LOOP_SIG + SMOOTH_SAME + SMOOTH_LEN)
+            every = (3 if n <= 120000 else 5) if quick else 1
             kinds = [k for j, k in enumerate(pool) if (i + j) % every == 0]
             kinds = [k for k in kinds if k not in LOOP_COST or n <= (5 * loop_max if k == "correct_me" else loop_max)]
             kinds = _shuffled(kinds, gen.run_seed(), n, cls)
@@ -1054,11 +1054,11 @@ def _len_enum(tier, shard, nshards):
 
 enum_clause(CLAUSES, "mid-range", _len_enum,
             rule="record length laddered from 2 000 to 300 000 samples (quick: 11 log-bins to 186 000 + both ends + sizes aimed at integer literals of "
-                 "the source; thorough: 24 bins to 2 000 000), AccSignal and Signal; per length every third (thorough: every) one of 36 / 22 "
+                 "the source; thorough: 24 bins to 2 000 000), AccSignal and Signal; per length every third (above 120 000 samples every fifth; thorough: every) one of 36 / 22 "
                  "scripted changes (each in-place mutator incl. three Butterworth forms, same-length / shorter / half-length reset_values, "
                  "time-zone variants; every smoothing-frequency setter with the SAME number of targets, same end points, another count; "
                  "period setters) in histories of <= 5 steps: warm every observable, change, re-read EVERY observable, change ...; "
-                 "response spectra are read for records <= 6 000 samples, per-sample Python-loop mutators applied to <= 20 000 (thorough 80 000)",
+                 "response spectra are read for records <= 3 500 samples (longer ones: mid-range-spectra), per-sample Python-loop mutators applied to <= 20 000 (thorough 80 000)",
             oracle="differential against a fresh object after every step (1e-10 of magnitude), second and third read bit for bit; "
                    "smoothed spectrum additionally anchored on two targets to the Konno-Ohmachi reference of C07 (1e-10 + conditioning bound)",
             exhaustive_note="one history family per ladder size; not exhaustive over sizes", quick_shards=4)(_mid_run)
@@ -1091,7 +1091,7 @@ def _rs_cases(tier):
     cases = []
     idx = 0
     # (a) record length, a handful of periods, no interpolation (shortest period >= 20 steps)
-    for n in sorted(set(gen.size_ladder(2000, nmax, 6 if quick else 14, tag + ":n", mined_limit=3 if quick else 8)) | {nmax}):
+    for n in gen.size_ladder(2000, nmax, 6 if quick else 14, tag + ":n", mined_limit=3 if quick else 8):
         c = _base("acc", n, "a%d" % idx, tag, nt=8, rs=True)
         cases.append(_rs_script(c, idx, n <= 20000, extra))
         idx += 1
@@ -1107,7 +1107,7 @@ def _rs_cases(tier):
         cases.append(_rs_script(c, idx, True, extra))
         idx += 1
     # (d) periods x samples
-    for P, n in gen.product_pairs(1e5, 1e7 if quick else 2e7, 7 if quick else 14, (10, pmax), (2000, nmax), tag + ":x"):
+    for P, n in gen.product_pairs(1e5, 1e7 if quick else 2e7, 6 if quick else 14, (10, pmax), (2000, nmax), tag + ":x"):
         c = _base("acc", n, "d%d" % idx, tag, nt=8, P=P, rs=True)
         c["fam"] = "spectra-product"
         cases.append(_rs_script(c, idx, n <= 20000, extra))
@@ -1146,9 +1146,8 @@ def _smooth_script(c, idx, product):
     vals = [k for k in vals if k != "reset_half"]
     kinds = [SMOOTH_SAME[r % len(SMOOTH_SAME)], vals[(5 * r + 1) % len(vals)]]
     oneoff = ()
-    if product <= 1.0e7:
-        kinds.append(SMOOTH_SAME[(r + 3) % len(SMOOTH_SAME)])
     if product <= 2.5e6:
+        kinds.append(SMOOTH_SAME[(r + 3) % len(SMOOTH_SAME)])
         oneoff = ("band", "freqs_band")
         kinds += [oneoff[r % 2], vals[(5 * r + 4) % len(vals)], SMOOTH_LEN[r % 2]]
     return _script(c, kinds, oneoff)
@@ -1168,7 +1167,7 @@ def _smooth_cases(tier):
         cases.append(_smooth_script(c, idx, 1024 * nt))
         idx += 1
     # (b) Fourier frequencies x targets
-    totals = list(gen.ladder(1e5, 3e7 if quick else 4e7, 9 if quick else 20, tag + ":x"))
+    totals = list(gen.ladder(1e5, 3e7 if quick else 4e7, 8 if quick else 20, tag + ":x"))
     totals += [int(m * 1.07) + 3 for m in gen.mined_ints(1e5, 3e7)][:4 if quick else 8]
     for total in sorted(set(totals)):
         sp = _split_product(total, "%s:%d:%d" % (tag, gen.run_seed(), total), 2000, n_hi)
@@ -1184,11 +1183,11 @@ def _smooth_cases(tier):
 
 enum_clause(CLAUSES, "mid-range-smooth", lambda tier, shard, nshards: _deal(_smooth_cases(tier), shard, nshards),
             rule="(a) 10..5000 smoothing targets (8 log-bins, thorough 18, + ends + source literals) on records with 1024 Fourier frequencies; "
-                 "(b) Fourier frequencies x targets laddered from 1e5 to 3e7 (9 log-bins, thorough 20 to 4e7, + products just above source "
+                 "(b) Fourier frequencies x targets laddered from 1e5 to 3e7 (8 log-bins, thorough 20 to 4e7, + products just above source "
                  "literals), record 2 000..300 000 samples (thorough 1 000 000) and 10..5000 targets by a hash-chosen split; history = a "
                  "smoothing setting changed keeping the number of targets (setter, deprecated setter, gen_smooth_fa_spectrum(freqs), range, "
-                 "by-range, in-place scaling, same end points), an in-place mutator of the values, [<= 1e7: a second same-count change], "
-                 "[<= 2.5e6: a one-off gen_/generate_smooth_fa_spectrum(band=20|57.5|80 [, freqs]), a mutator, another number of targets]; "
+                 "by-range, in-place scaling, same end points), an in-place mutator of the values, "
+                 "[<= 2.5e6: a second same-count change, a one-off gen_/generate_smooth_fa_spectrum(band=20|57.5|80 [, freqs]), a mutator, another number of targets]; "
                  "AccSignal / Signal alternate (Signal above 1e7); all observables re-read after every step",
             oracle="differential against a fresh object after every step (after a one-off band: a fresh object given the same call), 1e-10 of "
                    "magnitude, second and third read bit for bit; two targets anchored to the Konno-Ohmachi reference of C07",
@@ -1219,7 +1218,7 @@ def _opt_cases(tier):
         pool = [k for k in (VAL_ACC if cls == "acc" else VAL_SIG) if k != "reset_half"]
         return pool[(7 * idx[0] + gen.run_seed()) % len(pool)]
 
-    for n in sizes:
+    for isz, n in enumerate(sizes):
         npad = 2 ** int(math.ceil(math.log2(n)))
         # gen_fa_spectrum(p2_plus x n): n = None, an odd length above the record's, an even length below it
         for p2 in (None, 0, 1, 2):
@@ -1252,7 +1251,7 @@ def _opt_cases(tier):
             add("acc", n, [val("acc", n)], ["oneoff_dv", {} if trap is None else {"trap": trap}], "opt-dv", rs=False)
         # butter_pass(cut-off form x filter_order x remove_gibbs x gibbs_extra x gibbs_range)
         k = 0
-        for order in (2, 4):
+        for order in (2, 4) if (isz == 0 or not quick) else ():
             for gibbs in (None, "start", "end", "mid"):
                 for extra in (None, 2):
                     for rng in (None, 20):
@@ -1268,7 +1267,7 @@ def _opt_cases(tier):
                         add(cls, n, [], ["butter_pass", a], "opt-butter", rs=False)
     # gen_response_spectrum / generate_response_spectrum (response_times x xi x min_dt_ratio): shortest period 3 steps, so that
     # min_dt_ratio = 1 / 4 / 9 makes the object integrate on the record's grid / 4 times / 7 times finer
-    for n in gen.ladder(2000, 5000 if quick else 20000, 1 if quick else 3, tag + ":r"):
+    for n in gen.ladder(1200, 1800 if quick else 12000, 1 if quick else 3, tag + ":r"):
         for tm in ("none", "same", "other"):
             for xi in (None, 0.02, 0.3):
                 for mdr in (None, 1, 9):
@@ -1279,17 +1278,19 @@ def _opt_cases(tier):
                         a["mdr"] = mdr
                     if tm != "none":
                         a.update({"rlo": 3.3, "rhi": 150.0})
-                    c = add("acc", n, [val("acc", n)], None, "opt-rs", rs=True, rlo=3.0, rhi=200.0, P=6, nt=8, mdr=mdr or 4)
+                    c = add("acc", n, [val("acc", n)], None, "opt-rs", rs=True, rlo=3.0, rhi=200.0, P=4, nt=8, mdr=mdr or 4)
                     if tm == "other":
                         a["n"] = c["P"] + 2
                     c["steps"].insert(0, ["oneoff_rs", a])
     # constructors: smoothing grid given as frequencies / range / both / neither x periods given as times / range / both / neither
-    n = 2000 + _hh(gen.run_seed(), tag, "ctor") % 2000
+    # (the default period range is 0.1..5 s, 100 periods: with the 0.01 s step fixed here the object interpolates twice finer)
+    n = 2000 + _hh(gen.run_seed(), tag, "ctor") % 1000
     for ctor in ("freqs", "range", "both", "default"):
         for rctor in ("times", "range", "both", "default"):
-            c = add("acc", n, [val("acc", n), SMOOTH_SAME[idx[0] % len(SMOOTH_SAME)], PER_SAME[idx[0] % len(PER_SAME)]], None, "opt-ctor",
-                    rs=True, rlo=5.0 if rctor in ("range", "default") else 24.0, rhi=250.0, P=100 if rctor in ("range", "default") else 5,
+            c = add("acc", n, [val("acc", n), (SMOOTH_SAME + PER_SAME)[(idx[0] + gen.run_seed()) % len(SMOOTH_SAME + PER_SAME)]], None, "opt-ctor",
+                    rs=True, rlo=10.0 if rctor == "default" else 24.0, rhi=250.0, P=100 if rctor in ("range", "default") else 5,
                     nt=50 if ctor in ("range", "default") else 12, ctor=ctor, rctor=rctor, check_ctor=True)
+            c.update({"dt": 0.01, "flo": 0.2, "fhi": 30.0})
         c = add("sig", n, [val("sig", n), SMOOTH_SAME[idx[0] % len(SMOOTH_SAME)]], None, "opt-ctor", nt=50 if ctor in ("range", "default") else 12,
                 ctor=ctor, check_ctor=True)
     return cases
@@ -1300,9 +1301,9 @@ enum_clause(CLAUSES, "mid-range-options", lambda tier, shard, nshards: _deal(_op
                  "{-, odd > npts, even < npts}), gen_smooth_fa_spectrum(smooth_fa_freqs in {-, same count, other count} x band in {-,20,57.5}) and "
                  "generate_smooth_fa_spectrum(band), generate_displacement_and_velocity_series(trap), gen_/generate_response_spectrum(response_times "
                  "in {-, same count, other count} x xi in {-,0.02,0.3} x min_dt_ratio in {-,1,9}) with a shortest period of 3 steps (records of "
-                 "2 000..5 000 samples), each followed by an in-place mutator of the values; butter_pass(form x filter_order x remove_gibbs x "
-                 "gibbs_extra x gibbs_range); constructors (smooth_fa_freqs / smooth_freq_range / both / neither x response_times / "
-                 "response_period_range / both / neither) followed by a mutator and two settings changes; all observables read after every step",
+                 "1 200..1 800 samples, thorough to 12 000, integrated on a grid up to 7 times finer), each followed by an in-place mutator of the values; butter_pass(form x filter_order x remove_gibbs x "
+                 "gibbs_extra x gibbs_range) (quick: at the first length); constructors (smooth_fa_freqs / smooth_freq_range / both / neither x response_times / "
+                 "response_period_range / both / neither) followed by a mutator and a settings change; all observables read after every step",
             oracle="differential: after a generation call with one-off arguments a fresh object given the same call, otherwise the plain fresh object "
                    "(1e-10 of magnitude); second and third read bit for bit",
             exhaustive_note="complete over the listed option values at the chosen lengths", quick_shards=4)(_mid_run)
